@@ -6,7 +6,17 @@ d = f"/verif/seeded/{pid}-{tag}"
 os.makedirs(d, exist_ok=True)
 shutil.copy(os.path.join(wt, "seed.patch"), os.path.join(d, "patch.diff"))
 demos = subprocess.run(["git", "-C", wt, "status", "--short"], capture_output=True, text=True).stdout
-demo_files = [l.split()[-1] for l in demos.splitlines() if "zz_seed_demo" in l]
+demo_files = []
+for l in demos.splitlines():
+    if "zz_seed_demo" not in l:
+        continue
+    f = l.split()[-1]
+    if os.path.isdir(os.path.join(wt, f)):  # untracked directory: take the files inside
+        for root, _, names in os.walk(os.path.join(wt, f)):
+            for n in names:
+                demo_files.append(os.path.relpath(os.path.join(root, n), wt))
+    else:
+        demo_files.append(f)
 for f in demo_files:
     shutil.copy(os.path.join(wt, f), os.path.join(d, os.path.basename(f)))
 base = subprocess.run(["git", "-C", wt, "rev-parse", "--short", "HEAD"], capture_output=True, text=True).stdout.strip()
